@@ -138,7 +138,8 @@ func genBuild(rng *rand.Rand, k int) (*tree, string) {
 			t.Files[fmt.Sprintf("tiny/t%d", i)] = randBytes(rng, rng.Intn(17))
 		}
 		t.Files["tiny/large.bin"] = randBytes(rng, 20*BS+rng.Intn(BS))
-		desc = "tiny+large"
+		oddNamesTree(t, rng)
+		desc = "tiny+large+odd-names"
 	case 3: // only empty files / only dirs and links
 		for i := 0; i < 1+rng.Intn(4); i++ {
 			t.Files[fmt.Sprintf("empties/e%d", i)] = []byte{}
